@@ -161,6 +161,10 @@ func findFirstBetween(value, sub, start, finish any) (any, error) {
 		j = n
 	}
 
+	if i > j || len(p) == 0 {
+		return nil, nil
+	}
+
 	r := strings.Index(s[i:j], p)
 	if r == -1 {
 		return nil, nil
@@ -225,6 +229,10 @@ func findFirstFrom(value, sub, start any) (any, error) {
 		}
 
 		i = n
+	}
+
+	if len(p) == 0 {
+		return nil, nil
 	}
 
 	r := strings.Index(s[i:], p)
@@ -370,6 +378,10 @@ func findLastBetween(value, sub, start, finish any) (any, error) {
 		j = n
 	}
 
+	if i > j || len(p) == 0 {
+		return nil, nil
+	}
+
 	r := strings.LastIndex(s[i:j], p)
 	if r == -1 {
 		return nil, nil
@@ -434,6 +446,10 @@ func findLastFrom(value, sub, start any) (any, error) {
 		}
 
 		i = n
+	}
+
+	if len(p) == 0 {
+		return nil, nil
 	}
 
 	r := strings.LastIndex(s[i:], p)
